@@ -1193,9 +1193,23 @@ def check_lb_density(case):
     zs = [-30.0, -8.0, -2.5, -1.0, -0.3, -1e-9, 0.0, 1e-9, 0.2, 1.0, 3.0, 9.0, 30.0]
     mids = [(j + 0.5) / K for j in range(K)] + [1e-6, 1.0 - 1e-6]
     tol = 1e-7
+    f32 = case.get("dtype") == "float32"
 
     def mk(n):
         return PD.LogisticBernoulli(**{par: torch.tensor(case["theta"], dtype=torch.float64).unsqueeze(-1).expand(P, n)})
+
+    if f32:
+        # single precision (the library's default): the factorisation on the z grid only, to single-precision accuracy; the
+        # parameter-space construction (logits= / probs=) must not cost more than rounding
+        d = PD.LogisticBernoulli(**{par: torch.tensor(case["theta"], dtype=torch.float32).unsqueeze(-1).expand(P, len(zs))})
+        zz = torch.tensor(zs, dtype=torch.float32).unsqueeze(0).expand(P, len(zs))
+        h = d.threshold(zz)
+        lhs, rhs = d.log_prob(zz), d.tlog_prob(h) + d.clog_prob(zz, h)
+        ok = _tclose(lhs.double(), rhs.double(), 2e-5)
+        if not ok.all():
+            i, j = where(~ok)
+            return "float32 %s=%r, z=%r: log_prob = %s, tlog_prob(H(z)) + clog_prob(z, H(z)) = %s" % (par, case["theta"][i], float(zz[i, j]), _fmt(float(lhs[i, j])), _fmt(float(rhs[i, j])))
+        return None
 
     def where(mask):
         i, j = [int(x) for x in mask.nonzero()[0]]
@@ -1334,6 +1348,7 @@ def cases_lb_density(ctx):
     for par, vals in (("logits", [x for x in LB_LOGITS if abs(x) <= 15.0]), ("probs", [p for p in LB_PROBS if 1e-7 <= p <= 1.0 - 1e-7])):
         for x in vals:
             yield {"par": par, "theta": [x], "K": K}
+            yield {"par": par, "theta": [x], "K": K, "dtype": "float32"}
     if not ctx.quick:
         rng = random.Random(ctx.seed + 41)
         for _ in range(400):
